@@ -85,8 +85,17 @@ struct TaskState
 // make_value(v) is what is stored for the unique id v, canon_of(v) what the model expects
 // value_of() to read back.
 const int64_t kDbl = 2000000000000ll, kU64 = 4000000000000ll;
+// A key may also be bound to the unset alternative (monostate): the binding shadows older
+// ones, so GetValue answers monostate and HasKey false from then on.
+const int64_t kUnset = INT64_MIN + 1;
+bool binds_unset(int64_t v)
+{
+  return (v & 31) == 9;
+}
 context::ContextValue make_value(int64_t v)
 {
+  if (binds_unset(v))
+    return context::ContextValue{};
   switch (v & 3)
   {
     case 0:
@@ -101,6 +110,8 @@ context::ContextValue make_value(int64_t v)
 }
 int64_t canon_of(int64_t v)
 {
+  if (binds_unset(v))
+    return kUnset;
   switch (v & 3)
   {
     case 0:
@@ -135,7 +146,10 @@ void compare_ctx(const context::Context &real, const MCtx &m, const char *what, 
     int64_t v  = value_of(real.GetValue(kKeyName[k]), present);
     auto it    = m.kv.find(k);
     bool has   = real.HasKey(kKeyName[k]);
-    if (present != (it != m.kv.end()) || has != present || (present && v != it->second))
+    bool bound = it != m.kv.end();
+    bool exp_present = bound && it->second != kUnset;
+    // (HasKey is defined as "GetValue is not monostate": a monostate binding hides the key)
+    if (present != exp_present || has != present || (present && v != it->second))
     {
       vsim::report("C10.context_value",
                    fmt("task %d, %s: key '%s' answers %s%lld, model says %s%lld", task, what,
@@ -181,7 +195,7 @@ void check_current(TaskState &ts)
   bool present;
   int64_t v = value_of(context::RuntimeContext::GetValue(kKeyName[0]), present);
   auto it   = top.model.kv.find(0);
-  if (present != (it != top.model.kv.end()) || (present && v != it->second))
+  if (present != (it != top.model.kv.end() && it->second != kUnset) || (present && v != it->second))
     vsim::report("C10.runtime_getvalue", fmt("task %d: RuntimeContext::GetValue mismatch", ts.idx));
   // Tracer::GetCurrentSpan
   auto sp      = trace::Tracer::GetCurrentSpan();
